@@ -45,6 +45,8 @@ def feed(dataset_filler, ops, base, sleep, marker_dir):
         time.sleep(sleep)
     with dataset_filler as f:
         H.apply_ops(f, ops, base)
+    if base % 200 == 0:
+        dataset_filler.get_updated_infos()      # looking at what was produced must not change what the parent receives
     return ["result", base, len(ops)]
 
 
